@@ -272,6 +272,59 @@ theorem region_fail_pure (cursor frame size flags : W) (failAt : Option Nat)
         omega
     simp [hnone]
 
+/-! ## The Go runtime's memory hooks (`kernel/goruntime/bootstrap.go`) as clients -/
+
+/-- **gort_reserve_ok** — a successful `sysReserve` returns a region of at least the requested
+size directly below the cursor (page aligned if the cursor is); a size whose rounding wraps or that
+does not fit makes it panic (`none`) and reserves nothing. -/
+theorem gort_reserve_ok (cursor size addr : W) (h : gortReserve cursor size = some addr) :
+    addr.toNat + ceilPages size.toNat * 4096 = cursor.toNat ∧
+    size.toNat ≤ ceilPages size.toNat * 4096 ∧
+    (cursor.toNat % 4096 = 0 → addr.toNat % 4096 = 0) := by
+  unfold gortReserve at h
+  by_cases hw : roundWraps size = true
+  · simp [hw] at h
+  · have hw' : roundWraps size = false := by simpa using hw
+    simp only [hw', Bool.false_eq_true, if_false] at h
+    have hr := roundUp_toNat size hw'
+    obtain ⟨h1, _, _, h4⟩ := reserve_ok cursor (roundUp size) addr h
+    have hcp : ceilPages (roundUp size).toNat * 4096 = ceilPages size.toNat * 4096 := by
+      rw [hr]; unfold ceilPages; omega
+    refine ⟨by rw [← hcp]; exact h1, ?_, h4⟩
+    unfold ceilPages; omega
+
+/-- the loop of `sysMap` maps every page to the same (zero) frame with the same flags -/
+theorem mapLoopConst_flags (page frame flags : W) (fa : Option Nat) (n idx : Nat) :
+    ∀ c ∈ (mapLoopConst page frame flags fa n idx).1, c.2.1 = frame ∧ c.2.2 = flags := by
+  induction n generalizing page idx with
+  | zero => intro c hc; simp [mapLoopConst] at hc
+  | succ n ih =>
+    intro c hc
+    unfold mapLoopConst at hc
+    by_cases hf : fa = some idx
+    · simp only [hf, if_true, List.mem_singleton] at hc
+      subst hc; exact ⟨rfl, rfl⟩
+    · simp only [hf, if_false] at hc
+      rw [List.mem_cons] at hc
+      rcases hc with rfl | hc
+      · exact ⟨rfl, rfl⟩
+      · exact ih (page + 1) (idx + 1) c hc
+
+/-- **gort_map_never_writable** — every mapping `sysMap` requests is of the shared zero frame with
+Present|NoExecute|CopyOnWrite and never with the RW bit (C06's rule at this call site). -/
+theorem gort_map_never_writable (va size zero : W) (fa : Option Nat) :
+    ∀ c ∈ (gortMap va size zero fa).2, c.2.1 = zero ∧ c.2.2 = cowFlags ∧
+      c.2.2 &&& BitVec.ofNat 64 Firefly.Gen.C07.flagRW = 0 := by
+  intro c hc
+  unfold gortMap at hc
+  by_cases hw : roundWraps size = true
+  · simp [hw] at hc
+  · have hw' : roundWraps size = false := by simpa using hw
+    simp only [hw', Bool.false_eq_true, if_false] at hc
+    have := mapLoopConst_flags (pageOf (roundUp va)) zero cowFlags fa _ 0 c hc
+    refine ⟨this.1, this.2, ?_⟩
+    rw [this.2]; decide
+
 /-! ## Non-vacuity: concrete instances of the hypotheses -/
 
 example : earlyReserve tempMappingAddrW 4097#64 = some (tempMappingAddrW - 8192#64) := by decide
@@ -279,5 +332,9 @@ example : earlyReserve tempMappingAddrW (BitVec.ofNat 64 (2^64-1)) = none := by 
 example : (run tempMappingAddrW [1#64, 0#64, 4096#64, BitVec.ofNat 64 (2^64-1), 5000#64]).2.length = 4 := by
   decide
 example : (mapRegion tempMappingAddrW 7#64 4097#64 3#64 none).ok = true := by decide
+
+example : gortReserve tempMappingAddrW 5000#64 = some (tempMappingAddrW - 8192#64) := by decide
+example : gortReserve tempMappingAddrW (BitVec.ofNat 64 (2^64-1)) = none := by decide
+example : (gortMap 0x1234#64 4097#64 0x77#64 none).2.length = 2 := by decide
 
 end Firefly.C07
